@@ -37,6 +37,7 @@ type HttpClient struct {
 type FlvTagRecv struct {
 	httpc.FlvTag
 	Step int
+	Ms   int64
 }
 
 func NewHttpClient(k *sim.Kernel, name, mode, path string) *HttpClient {
@@ -102,7 +103,7 @@ func (a *HttpClient) OnData(c *sim.Conn, b []byte) {
 
 func (a *HttpClient) feedFlv(b []byte) {
 	for _, t := range a.Flv.Feed(b) {
-		a.Tags = append(a.Tags, FlvTagRecv{t, a.K.Step()})
+		a.Tags = append(a.Tags, FlvTagRecv{t, a.K.Step(), a.K.NowMs()})
 	}
 }
 
